@@ -9,7 +9,7 @@ from ..selftest import Mutant
 
 ID = "C31"
 TECHNIQUE = "all-exits jail bracket (K3), chroot provenance (K5), guard on the non-child branch (K2) and a flow-sensitive taint pass from do*() parameters to transport/BzrDir sinks over every registered verb class (ast + registry resolution)"
-FLOOR = 60
+FLOOR = 91
 RQ = "breezy/bzr/smart/request.py"
 VF = "breezy/bzr/smart/vfs.py"
 SV = "breezy/bzr/smart/server.py"
